@@ -215,6 +215,9 @@ func (p *Program) sop2(op uint32, name string, sdst, ssrc0, ssrc1 Src) {
 // SAddU32 : sdst = a + b.
 func (p *Program) SAddU32(sdst, a, b Src) { p.sop2(0, "s_add_u32", sdst, a, b) }
 
+// SAddcU32 : sdst = a + b + SCC.
+func (p *Program) SAddcU32(sdst, a, b Src) { p.sop2(4, "s_addc_u32", sdst, a, b) }
+
 // SSubU32 : sdst = a - b.
 func (p *Program) SSubU32(sdst, a, b Src) { p.sop2(1, "s_sub_u32", sdst, a, b) }
 
